@@ -67,3 +67,13 @@ package actionlint
 //@     invariant 0 <= delta && delta <= range_i + 1 && range_i + 1 <= len(u.cur)
 //@     invariant u.cur == old(u.cur) && u.filteringObject == old(u.filteringObject) && u.errs == old(u.errs) && u.start == old(u.start)
 //@     invariant forall j: int :: 0 <= j && j < range_i + 1 - delta ==> u.cur[j] != nil
+
+// which workflow fields are scripts: the text of `run:` and the `script` input of actions/github-script
+// (input names are case-insensitive: the lower-cased map key decides), and only those
+//@ spec hasprefix(s: string, p: string): bool
+//@ func (*RuleExpression).VisitStep
+//@   props C11
+//@   body_calls (*RuleExpression).checkScriptString iff istype(n.Exec, "*ExecRun")
+//@   loop "range e.Inputs":
+//@     body_calls [C11] (*RuleExpression).checkScriptString iff e.Uses != nil && hasprefix(e.Uses.Value, "actions/github-script@") && range_k == "script"
+//@     body_calls [C11] (*RuleExpression).checkString iff !(e.Uses != nil && hasprefix(e.Uses.Value, "actions/github-script@") && range_k == "script")
